@@ -555,43 +555,42 @@ def _f(args):
     return args[0]
 
 
-@reg(('f32', None, 'abs'), ('f64', None, 'abs'))
-def _f_abs(vm, cal, args):
-    return z3.fpAbs(args[0])
+def _f_unary(op):
+    def g(vm, cal, args):
+        return f_un(op, args[0])
+    return g
 
 
-@reg(('f32', None, 'sqrt'), ('f64', None, 'sqrt'))
-def _f_sqrt(vm, cal, args):
-    return z3.fpSqrt(RNE, args[0])
+for _ty in ('f32', 'f64'):
+    for _op in ('abs', 'sqrt', 'floor'):
+        M.table[(_ty, None, _op)] = _f_unary(_op)
 
 
-@reg(('f32', None, 'max'), ('f64', None, 'max'))
-def _f_max(vm, cal, args):
-    a, b = args
-    return z3.If(z3.fpIsNaN(a), b, z3.If(z3.fpIsNaN(b), a, z3.If(z3.fpGEQ(a, b), a, b)))
+def _f_binary(op):
+    def g(vm, cal, args):
+        return f_arith(op, args[0], args[1])
+    return g
 
 
-@reg(('f32', None, 'min'), ('f64', None, 'min'))
-def _f_min(vm, cal, args):
-    a, b = args
-    return z3.If(z3.fpIsNaN(a), b, z3.If(z3.fpIsNaN(b), a, z3.If(z3.fpLEQ(a, b), a, b)))
-
-
-@reg(('f32', None, 'floor'), ('f64', None, 'floor'))
-def _f_floor(vm, cal, args):
-    return z3.fpRoundToIntegral(z3.RTN(), args[0])
+for _ty in ('f32', 'f64'):
+    M.table[(_ty, None, 'max')] = _f_binary('max')
+    M.table[(_ty, None, 'min')] = _f_binary('min')
 
 
 @reg(('f32', None, 'is_nan'), ('f64', None, 'is_nan'))
 def _f_isnan(vm, cal, args):
-    return z3.fpIsNaN(args[0])
+    x = args[0]
+    if isinstance(x, FSet):
+        return z3.Or([c for v, c in x.cases if v != v] + [z3.BoolVal(False)])
+    return z3.fpIsNaN(x)
 
 
 @reg(('f32', 'PartialOrd', 'partial_cmp'), ('f64', 'PartialOrd', 'partial_cmp'))
 def _f_partial_cmp(vm, cal, args):
     a = vm.deref(as_ref(args[0]))
     b = vm.deref(as_ref(args[1]))
-    k = vm.choose([z3.fpLT(a, b), z3.fpEQ(a, b), z3.fpGT(a, b), z3.Or(z3.fpIsNaN(a), z3.fpIsNaN(b))], "partial_cmp")
+    lt, eq, gt = f_rel('lt', a, b), f_rel('eq', a, b), f_rel('gt', a, b)
+    k = vm.choose([lt, eq, gt, z3.Not(z3.Or(lt, eq, gt))], "partial_cmp")
     if k == 3:
         return NONE
     return SOME(ORDERING((-1, 0, 1)[k]))
@@ -628,7 +627,7 @@ def _pord(vm, cal, args):
         b = vm.deref(b)
     if isinstance(a, I):
         return SOME(_int_cmp(vm, a, b))
-    if z3.is_fp(a):
+    if isfp(a):
         return _f_partial_cmp(vm, cal, [vm.new_ref(a), vm.new_ref(b)])
     raise Unmodelled("partial_cmp on %r" % (a,))
 
@@ -641,8 +640,8 @@ def _peq(vm, cal, args):
         a = vm.deref(a)
     while isinstance(b, Ref):
         b = vm.deref(b)
-    if z3.is_fp(a):
-        e = z3.fpEQ(a, b)
+    if isfp(a):
+        e = f_rel('eq', a, b)
     else:
         e = key_eq(vm, a, b)
     return z3.Not(e) if cal.method == 'ne' else e
@@ -687,8 +686,8 @@ def _r_contains(vm, cal, args):
     x = vm.deref(as_ref(args[1]))
     lo, hi = r.fields[0], r.fields[1]
     incl = r.ty == 'RangeInclusive'
-    if z3.is_fp(x):
-        return z3.And(z3.fpLEQ(lo, x), z3.fpLEQ(x, hi) if incl else z3.fpLT(x, hi))
+    if isfp(x):
+        return z3.And(f_rel('le', lo, x), f_rel('le', x, hi) if incl else f_rel('lt', x, hi))
     if x.signed:
         return z3.And(lo.e <= x.e, (x.e <= hi.e) if incl else (x.e < hi.e))
     return z3.And(z3.ULE(lo.e, x.e), z3.ULE(x.e, hi.e) if incl else z3.ULT(x.e, hi.e))
@@ -800,7 +799,8 @@ def _vec_truncate(vm, cal, args):
     v = vec_at(vm, r)
     n = args[1].concrete()
     if n is None:
-        n = vm.concretize_index(args[1], len(v.items) + 1) if True else None
+        L = len(v.items)
+        n = vm.choose([args[1].e == k for k in range(L)] + [z3.UGE(args[1].e, L)], "truncate length")
     vm.store(r, VecV(v.items[:n], v.kind))
     return ()
 
@@ -1523,7 +1523,7 @@ def _sum(vm, cal, args):
         for x in xs:
             if isinstance(x, Ref):
                 x = vm.deref(x)
-            acc = z3.fpAdd(RNE, acc, x)
+            acc = vm.binop('Add', acc, x)
         return acc
     bits, signed = INT_TYPES[ty]
     acc = z3.BitVecVal(0, bits)
@@ -1753,3 +1753,69 @@ def _chan_len(vm, cal, args):
 @reg(('JoinHandle', None, 'join'))
 def _join_handle(vm, cal, args):
     return OK(())
+
+
+# ===================================================================== pathfinding: Matrix + kuhn_munkres (contract model)
+@reg(('Matrix', None, 'new'))
+def _matrix_new(vm, cal, args):
+    r, c = args[0].concrete(), args[1].concrete()
+    if r is None or c is None:
+        raise Unmodelled("Matrix::new with symbolic dimensions")
+    return Adt('Matrix', 0, (usize(r), usize(c), VecV(tuple([args[2]] * (r * c)))))
+
+
+@reg(('Matrix', None, 'get_mut'), ('Matrix', None, 'get'))
+def _matrix_get(vm, cal, args):
+    ref = as_ref(args[0])
+    m = vm.deref(ref)
+    rows, cols = m.fields[0].concrete(), m.fields[1].concrete()
+    ri, ci = args[1]
+    r = ri.concrete() if ri.concrete() is not None else vm.concretize_index(ri, rows + 1)
+    c = ci.concrete() if ci.concrete() is not None else vm.concretize_index(ci, cols + 1)
+    if r >= rows or c >= cols:
+        return NONE
+    return SOME(Ref(ref.cell, ref.path + (2, ('idx', r * cols + c))))
+
+
+@reg((None, None, 'kuhn_munkres'))
+def _kuhn_munkres(vm, cal, args):
+    """contract: returns an assignment row -> distinct column of MAXIMUM total weight (any optimal one).
+    Encoded as a nondeterministic choice of the injection + the assumption that no alternative is better."""
+    m = vm.deref(as_ref(args[0]))
+    rows, cols = m.fields[0].concrete(), m.fields[1].concrete()
+    if rows > cols:
+        raise Panic("kuhn_munkres: number of rows must not be larger than number of columns")
+    data = m.fields[2].items
+    w = [[data[r * cols + c] for c in range(cols)] for r in range(rows)]
+    injections = list(itertools.permutations(range(cols), rows))
+    k = vm.choose_n(len(injections), "kuhn_munkres optimum")
+    sol = injections[k]
+
+    def total(inj):
+        t = z3.BitVecVal(0, 128)
+        for r, c in enumerate(inj):
+            t = t + z3.SignExt(64, w[r][c].e)
+        return t
+    mine = total(sol)
+    vm.assume(z3.And([mine >= total(o) for o in injections if o != sol] + [z3.BoolVal(True)]))
+    return (I(z3.Extract(63, 0, mine), True), VecV(tuple(usize(c) for c in sol)))
+
+
+@reg(('Vec', None, 'resize'))
+def _vec_resize(vm, cal, args):
+    r = as_ref(args[0])
+    v = vec_at(vm, r)
+    n = args[1].concrete()
+    if n is None:
+        raise Unmodelled("Vec::resize with symbolic length")
+    items = list(v.items)[:n] + [args[2]] * max(0, n - len(v.items))
+    vm.store(r, VecV(items, v.kind))
+    return ()
+
+
+@reg(('Option', None, 'copied'))
+def _o_copied2(vm, cal, args):
+    v = _opt(args[0])
+    if _is_some(v):
+        return SOME(vm.deref(as_ref(v.fields[0])))
+    return v
